@@ -24,7 +24,8 @@ CONSTANTS PkgBytes, PkgRunes,      \* per package-name index
 
 MaxOf(S) == IF S = {} THEN 0 ELSE CHOOSE x \in S : \A y \in S : x >= y
 
-(* cfg = [pf, colour, mode, P] with P the set of catalogue indices whose header the expression matches *)
+(* cfg = [pf, colour, mode, P, Q] with P the set of catalogue indices whose header the expression
+   matches (mode "both": P for -f, Q for -m) *)
 Rows(b) == Catalogue[b].rows
 AllRows(bs) == UNION {{Rows(bs[i])[j] : j \in 1..Len(Rows(bs[i]))} : i \in 1..Len(bs)}
 PkgLen(bs) == MaxOf({PkgBytes[r.pkg] : r \in AllRows(bs)} \cup {0})
@@ -33,6 +34,7 @@ SrcLen(bs, pf) == MaxOf({SrcBytes[r.src][pf] : r \in AllRows(bs)} \cup {0})
 Admitted(b, cfg) == CASE cfg.mode = "none"   -> TRUE
                       [] cfg.mode = "filter" -> b \notin cfg.P
                       [] cfg.mode = "match"  -> b \in cfg.P
+                      [] cfg.mode = "both"   -> b \notin cfg.P /\ b \in cfg.Q    \* -f and -m together: both apply
 Shown(bs, cfg) == SelectSeq(bs, LAMBDA b : Admitted(b, cfg))
 
 (* column at which the file:line text and the function text start, in runes,
@@ -48,13 +50,20 @@ Out(bs, cfg) == [i \in 1..Len(Shown(bs, cfg)) |-> Block(Shown(bs, cfg)[i], bs, c
 IsSubSeqOf(s, t) == \E f \in [1..Len(s) -> 1..Len(t)] :
                       /\ \A i \in 1..Len(s) : t[f[i]] = s[i]
                       /\ \A i \in 1..(Len(s) - 1) : f[i] < f[i+1]
-Complete(bs) == Shown(bs, [pf |-> "base", colour |-> FALSE, mode |-> "none", P |-> {}]) = bs
+Complete(bs) == Shown(bs, [pf |-> "base", colour |-> FALSE, mode |-> "none", P |-> {}, Q |-> {}]) = bs
 Split(bs, P) ==
-  LET f == Shown(bs, [pf |-> "base", colour |-> FALSE, mode |-> "filter", P |-> P])
-      m == Shown(bs, [pf |-> "base", colour |-> FALSE, mode |-> "match", P |-> P]) IN
+  LET f == Shown(bs, [pf |-> "base", colour |-> FALSE, mode |-> "filter", P |-> P, Q |-> {}])
+      m == Shown(bs, [pf |-> "base", colour |-> FALSE, mode |-> "match", P |-> P, Q |-> {}]) IN
   /\ Len(f) + Len(m) = Len(bs)
   /\ {f[i] : i \in 1..Len(f)} \cap {m[i] : i \in 1..Len(m)} = {}
   /\ IsSubSeqOf(f, bs) /\ IsSubSeqOf(m, bs)
+(* -f F together with -m M shows exactly the blocks that -f F alone and -m M alone both show *)
+BothIsMeet(bs, P, Q) ==
+  LET f == Shown(bs, [pf |-> "base", colour |-> FALSE, mode |-> "filter", P |-> P, Q |-> {}])
+      m == Shown(bs, [pf |-> "base", colour |-> FALSE, mode |-> "match", P |-> Q, Q |-> {}])
+      x == Shown(bs, [pf |-> "base", colour |-> FALSE, mode |-> "both", P |-> P, Q |-> Q]) IN
+  /\ {x[i] : i \in 1..Len(x)} = {f[i] : i \in 1..Len(f)} \cap {m[i] : i \in 1..Len(m)}
+  /\ IsSubSeqOf(x, bs)
 (* a row's own text fits into its column: the padding is never negative *)
 Fits(bs, pf) == \A i \in 1..Len(bs) : \A j \in 1..Len(Rows(bs[i])) :
    /\ PkgRunes[Rows(bs[i])[j].pkg] <= PkgLen(bs)
